@@ -105,6 +105,24 @@ Proof. vm_compute. reflexivity. Qed.
 Lemma bits_le_pow b p : b <= 8 * N.of_nat p -> 2 ^ b <= 256 ^ N.of_nat p.
 Proof. intro H. rewrite <- pow2_8. apply N.pow_le_mono_r; [discriminate|exact H]. Qed.
 
+(** a register value travels as a byte string of ONE length: the bytes ValueBytes writes are
+    the bytes the parser table of ValueFromBytes reads, and there is at least one *)
+Definition width_ok (i : rinfo) : bool := Nat.eqb (r_parser i) (r_ser i) && Nat.ltb 0 (r_parser i).
+
+Lemma registry_width_ok : forallb width_ok registry = true.
+Proof. vm_compute. reflexivity. Qed.
+
+Lemma lookup_width id i : lookup id registry = Some i ->
+  r_parser i = r_ser i /\ (0 < r_parser i)%nat /\ (id = key_id -> r_parser i = 32%nat).
+Proof.
+  intro H. destruct (lookup_ok _ _ H) as [_ [_ [_ Hkey]]].
+  apply lookup_In in H. destruct H as [Hin _].
+  pose proof registry_width_ok as Hok. rewrite forallb_forall in Hok. specialize (Hok i Hin).
+  unfold width_ok in Hok. apply andb_prop in Hok. destruct Hok as [H1 H2].
+  apply Nat.eqb_eq in H1. apply Nat.ltb_lt in H2.
+  repeat split; try assumption. intro E. rewrite H1. exact (proj1 (Hkey E)).
+Qed.
+
 (** * 2. ValueBytes / ValueFromBytes *)
 
 Lemma bytes_roundtrip r : valid r ->
@@ -114,13 +132,13 @@ Proof.
   unfold value_bytes, value_from_bytes. cbn [fst snd]. rewrite Hl.
   eexists. split; [reflexivity|].
   destruct (lookup_ok _ _ Hl) as [Hid [Hps [Hbits Hkey]]].
+  destruct (lookup_width _ _ Hl) as [Hw _].
   rewrite le_bytes_length.
   destruct (String.eqb id key_id) eqn:E.
   - apply String.eqb_eq in E. destruct (Hkey E) as [Hser Hb].
     rewrite Hser, Nat.eqb_refl. rewrite le_roundtrip; [reflexivity|].
     rewrite pow256_32, <- Hb. exact Hx.
-  - assert (Hlt : (r_ser i <? r_parser i)%nat = false) by (apply Nat.ltb_ge; exact Hps).
-    rewrite Hlt. rewrite firstn_le_bytes by exact Hps.
+  - rewrite <- Hw, Nat.eqb_refl.
     pose proof (bits_le_pow _ _ Hbits) as Hpow.
     rewrite le_roundtrip by (eapply N.lt_le_trans; eassumption).
     rewrite N.mod_small by exact Hx. reflexivity.
@@ -129,9 +147,7 @@ Qed.
 Lemma from_bytes_never_panics id b : value_from_bytes id b <> RPanic.
 Proof.
   unfold value_from_bytes. destruct (lookup id registry); [|discriminate].
-  destruct (String.eqb id key_id).
-  - destruct (Nat.eqb _ _); discriminate.
-  - destruct (Nat.ltb _ _); discriminate.
+  destruct (String.eqb id key_id); destruct (Nat.eqb _ _); discriminate.
 Qed.
 
 Lemma value_bytes_never_panics r : value_bytes r <> RPanic.
@@ -1090,25 +1106,10 @@ Close Scope string_scope.
 
 (** * 14. inputs that do not denote a value of the register's width
 
-    A register value travels as a byte string of ONE length: the bytes ValueBytes writes,
-    which is also what the parser table of ValueFromBytes reads ([width_ok]).  A byte string
-    of another length denotes no value of the register. *)
-
-Definition width_ok (i : rinfo) : bool := Nat.eqb (r_parser i) (r_ser i) && Nat.ltb 0 (r_parser i).
-
-Lemma registry_width_ok : forallb width_ok registry = true.
-Proof. vm_compute. reflexivity. Qed.
-
-Lemma lookup_width id i : lookup id registry = Some i ->
-  r_parser i = r_ser i /\ (0 < r_parser i)%nat /\ (id = key_id -> r_parser i = 32%nat).
-Proof.
-  intro H. destruct (lookup_ok _ _ H) as [_ [_ [_ Hkey]]].
-  apply lookup_In in H. destruct H as [Hin _].
-  pose proof registry_width_ok as Hok. rewrite forallb_forall in Hok. specialize (Hok i Hin).
-  unfold width_ok in Hok. apply andb_prop in Hok. destruct Hok as [H1 H2].
-  apply Nat.eqb_eq in H1. apply Nat.ltb_lt in H2.
-  repeat split; try assumption. intro E. rewrite H1. exact (proj1 (Hkey E)).
-Qed.
+    A register value travels as a byte string of ONE length, the register's serialised width
+    ([width_ok]: r_parser = r_ser > 0 for each of the 26 entries).  A byte string of another
+    length denotes no value of the register; one of that length denotes the little-endian
+    number it spells. *)
 
 Lemma le_value_bound b : Forall (fun x => x < 256) b -> le_value b < 256 ^ N.of_nat (List.length b).
 Proof.
@@ -1120,9 +1121,10 @@ Qed.
 Lemma from_bytes_unknown id b : lookup id registry = None -> value_from_bytes id b = RErr.
 Proof. intro H. unfold value_from_bytes. rewrite H. reflexivity. Qed.
 
-(** too short by any number of bytes, down to none at all: refused *)
-Lemma from_bytes_short_refused id i b : lookup id registry = Some i ->
-  (List.length b < r_parser i)%nat -> value_from_bytes id b = RErr.
+(** any other length than the register's width - shorter, down to no bytes at all, or longer -
+    is refused *)
+Lemma from_bytes_wrong_width_refused id i b : lookup id registry = Some i ->
+  List.length b <> r_parser i -> value_from_bytes id b = RErr.
 Proof.
   intros Hl Hlen. destruct (lookup_width _ _ Hl) as [_ [_ Hkey]].
   unfold value_from_bytes. rewrite Hl.
@@ -1130,9 +1132,16 @@ Proof.
   - apply String.eqb_eq in E. specialize (Hkey E).
     destruct (Nat.eqb (List.length b) 32) eqn:E2; [|reflexivity].
     apply Nat.eqb_eq in E2. lia.
-  - assert (Hlt : (List.length b <? r_parser i)%nat = true) by (apply Nat.ltb_lt; exact Hlen).
-    rewrite Hlt. reflexivity.
+  - apply Nat.eqb_neq in Hlen. rewrite Hlen. reflexivity.
 Qed.
+
+Lemma from_bytes_short_refused id i b : lookup id registry = Some i ->
+  (List.length b < r_parser i)%nat -> value_from_bytes id b = RErr.
+Proof. intros Hl Hlen. apply (from_bytes_wrong_width_refused id i b Hl). lia. Qed.
+
+Lemma from_bytes_long_refused id i b : lookup id registry = Some i ->
+  (r_parser i < List.length b)%nat -> value_from_bytes id b = RErr.
+Proof. intros Hl Hlen. apply (from_bytes_wrong_width_refused id i b Hl). lia. Qed.
 
 Lemma from_bytes_empty_refused id : value_from_bytes id [] = RErr.
 Proof.
@@ -1153,8 +1162,7 @@ Proof.
   - apply String.eqb_eq in E. specialize (Hkey E). destruct (Hkey2 E) as [_ Hbits].
     rewrite Hlen, Hkey, Nat.eqb_refl. rewrite N.mod_small; [reflexivity|].
     rewrite Hbits, <- pow256_32, <- Hkey, <- Hlen. apply le_value_bound. exact Hb.
-  - assert (Hlt : (List.length b <? r_parser i)%nat = false) by (apply Nat.ltb_ge; lia).
-    rewrite Hlt. rewrite <- Hlen, firstn_all. reflexivity.
+  - rewrite Hlen, Nat.eqb_refl. reflexivity.
 Qed.
 
 (** a register whose Go type is as wide as its serialisation (all but ACM_STATUS): the number itself *)
@@ -1172,52 +1180,32 @@ Definition full_width (i : rinfo) : bool := N.eqb (r_bits i) (8 * N.of_nat (r_pa
 Lemma full_width_count : List.length (filter full_width registry) = 25%nat.
 Proof. vm_compute. reflexivity. Qed.
 
-(** the faithful characterisation: which inputs yield a value, and which value *)
-Lemma from_bytes_characterised id b r : Forall (fun x => x < 256) b ->
-  (value_from_bytes id b = ROk r <->
-   exists i, lookup id registry = Some i /\
-     (if String.eqb id key_id then List.length b = 32%nat else (r_parser i <= List.length b)%nat) /\
-     r = (id, le_value (firstn (r_parser i) b) mod 2 ^ r_bits i)).
-Proof.
-  intro Hb. split.
-  - unfold value_from_bytes. destruct (lookup id registry) as [i|] eqn:Hl; [|discriminate].
-    destruct (lookup_width _ _ Hl) as [_ [_ Hkey]].
-    destruct (lookup_ok _ _ Hl) as [_ [_ [_ Hkey2]]].
-    destruct (String.eqb id key_id) eqn:E.
-    + apply String.eqb_eq in E. specialize (Hkey E). destruct (Hkey2 E) as [_ Hbits].
-      destruct (Nat.eqb (List.length b) 32) eqn:E2; [|discriminate].
-      apply Nat.eqb_eq in E2. intro H. injection H as <-.
-      exists i. split; [reflexivity|]. split; [exact E2|].
-      rewrite Hkey, <- E2, firstn_all. rewrite N.mod_small; [reflexivity|].
-      rewrite Hbits, <- pow256_32, <- E2. apply le_value_bound. exact Hb.
-    + destruct (Nat.ltb (List.length b) (r_parser i)) eqn:E2; [discriminate|].
-      apply Nat.ltb_ge in E2. intro H. injection H as <-.
-      exists i. split; [reflexivity|]. split; [exact E2|reflexivity].
-  - intros [i [Hl [Hlen ->]]]. destruct (lookup_width _ _ Hl) as [_ [_ Hkey]].
-    destruct (String.eqb id key_id) eqn:E.
-    + apply String.eqb_eq in E. specialize (Hkey E).
-      rewrite (from_bytes_own_width id i b Hl) by (try exact Hb; lia).
-      rewrite Hkey, <- Hlen, firstn_all. reflexivity.
-    + unfold value_from_bytes. rewrite Hl, E.
-      assert (Hlt : (List.length b <? r_parser i)%nat = false) by (apply Nat.ltb_ge; exact Hlen).
-      rewrite Hlt. reflexivity.
-Qed.
-
-(** [_partial]: "a value iff the length is the register's width, and then the little-endian
-    number" holds among the inputs that are not LONGER than the width (hypothesis 3) *)
-Lemma from_bytes_value_iff_width_partial id i b r : lookup id registry = Some i ->
-  Forall (fun x => x < 256) b -> (List.length b <= r_parser i)%nat ->
+(** a value iff the length is the register's width, and then the little-endian number *)
+Lemma from_bytes_value_iff_width id i b r : lookup id registry = Some i ->
+  Forall (fun x => x < 256) b ->
   (value_from_bytes id b = ROk r <->
    List.length b = r_parser i /\ r = (id, le_value b mod 2 ^ r_bits i)).
 Proof.
-  intros Hl Hb Hle. split.
+  intros Hl Hb. split.
   - intro H. destruct (Nat.eq_dec (List.length b) (r_parser i)) as [E|E].
     + split; [exact E|]. rewrite (from_bytes_own_width id i b Hl E Hb) in H. congruence.
-    + rewrite (from_bytes_short_refused id i b Hl) in H by lia. discriminate.
+    + rewrite (from_bytes_wrong_width_refused id i b Hl E) in H. discriminate.
   - intros [E ->]. apply from_bytes_own_width; assumption.
 Qed.
 
-(** the key: no extra hypothesis, its length is compared exactly *)
+(** the same without naming the registry entry: all identifiers, all lengths *)
+Lemma from_bytes_characterised id b r : Forall (fun x => x < 256) b ->
+  (value_from_bytes id b = ROk r <->
+   exists i, lookup id registry = Some i /\ List.length b = r_parser i /\
+             r = (id, le_value b mod 2 ^ r_bits i)).
+Proof.
+  intro Hb. split.
+  - intro H. destruct (lookup id registry) as [i|] eqn:Hl.
+    + exists i. split; [reflexivity|]. apply (from_bytes_value_iff_width id i b r Hl Hb). exact H.
+    + rewrite (from_bytes_unknown id b Hl) in H. discriminate.
+  - intros [i [Hl HH]]. apply (from_bytes_value_iff_width id i b r Hl Hb). exact HH.
+Qed.
+
 Lemma from_bytes_key_iff b r : Forall (fun x => x < 256) b ->
   (value_from_bytes key_id b = ROk r <-> List.length b = 32%nat /\ r = (key_id, le_value b)).
 Proof.
@@ -1231,27 +1219,43 @@ Proof.
   - apply Nat.eqb_neq in E. split; [discriminate|]. intros [E2 _]. contradiction.
 Qed.
 
-(** every other register: bytes after the register's width are ignored (finding
-    C16-from-bytes-trailing-bytes-accepted) *)
-Lemma from_bytes_trailing_ignored id i b : lookup id registry = Some i -> id <> key_id ->
-  (r_parser i <= List.length b)%nat ->
-  value_from_bytes id b = value_from_bytes id (firstn (r_parser i) b).
+(** ** the code before 4a8d65e (former finding C16-from-bytes-trailing-bytes-accepted) *)
+
+(** it agreed with the repaired code on every input not longer than the width ... *)
+Lemma from_bytes_legacy_agrees id i b : lookup id registry = Some i ->
+  (List.length b <= r_parser i)%nat -> value_from_bytes_legacy id b = value_from_bytes id b.
 Proof.
-  intros Hl Hk Hlen. unfold value_from_bytes. rewrite Hl.
+  intros Hl Hle. unfold value_from_bytes_legacy, value_from_bytes. rewrite Hl.
+  destruct (String.eqb id key_id); [reflexivity|].
+  destruct (Nat.eqb (List.length b) (r_parser i)) eqn:E.
+  - apply Nat.eqb_eq in E. assert (H : (List.length b <? r_parser i)%nat = false) by (apply Nat.ltb_ge; lia).
+    rewrite H, <- E, firstn_all. reflexivity.
+  - apply Nat.eqb_neq in E. assert (H : (List.length b <? r_parser i)%nat = true) by (apply Nat.ltb_lt; lia).
+    rewrite H. reflexivity.
+Qed.
+
+(** ... and on longer ones ignored whatever followed the first [r_parser] bytes *)
+Lemma from_bytes_legacy_trailing_ignored id i b : lookup id registry = Some i -> id <> key_id ->
+  (r_parser i <= List.length b)%nat ->
+  value_from_bytes_legacy id b = value_from_bytes id (firstn (r_parser i) b).
+Proof.
+  intros Hl Hk Hlen. unfold value_from_bytes_legacy, value_from_bytes. rewrite Hl.
   apply String.eqb_neq in Hk. rewrite Hk.
   rewrite firstn_length_le by exact Hlen.
   assert (H1 : (List.length b <? r_parser i)%nat = false) by (apply Nat.ltb_ge; exact Hlen).
-  rewrite H1, Nat.ltb_irrefl. rewrite firstn_firstn, Nat.min_id. reflexivity.
+  rewrite H1, Nat.eqb_refl. reflexivity.
 Qed.
 
 Open Scope string_scope.
-Lemma from_bytes_value_iff_width_refuted :
+(** the former witness: one byte too many for the one-byte register was a value, is an error *)
+Lemma from_bytes_legacy_witness :
   exists id i b r, lookup id registry = Some i /\ Forall (fun x => x < 256) b /\
-    List.length b <> r_parser i /\ value_from_bytes id b = ROk r.
+    List.length b <> r_parser i /\ value_from_bytes_legacy id b = ROk r /\
+    value_from_bytes id b = RErr.
 Proof.
   exists "TXT.ESTS", {| r_id := "TXT.ESTS"; r_bits := 8; r_ser := 1; r_parser := 1; r_addr := 4275240968 |},
          [1; 255], ("TXT.ESTS", 1).
-  split; [reflexivity|]. split; [repeat constructor|]. split; [discriminate|reflexivity].
+  split; [reflexivity|]. split; [repeat constructor|]. split; [discriminate|]. split; reflexivity.
 Qed.
 Close Scope string_scope.
 
@@ -1284,16 +1288,16 @@ Proof.
   split; [exact Hin|]. unfold json_entry. rewrite He. reflexivity.
 Qed.
 
-(** a legacy JSON document holding, anywhere, an entry whose value is shorter than the
-    register's width (no bytes at all: "value":"", null, no value field) is refused, and the
-    variable it was unmarshalled into keeps what it held *)
-Lemma json_doc_short_entry_refused dst es id i b : In (id, b) es ->
-  lookup id registry = Some i -> (List.length b < r_parser i)%nat ->
+(** a legacy JSON document holding, anywhere, an entry whose value has another length than the
+    register's width (no bytes at all: "value":"", null, no value field; too few; too many) is
+    refused, and the variable it was unmarshalled into keeps what it held *)
+Lemma json_doc_wrong_width_entry_refused dst es id i b : In (id, b) es ->
+  lookup id registry = Some i -> List.length b <> r_parser i ->
   json_doc es = RErr /\ unmarshal dst (DJson es) = Some (dst, false).
 Proof.
   intros Hin Hl Hlen. assert (H : json_doc es = RErr).
   { apply json_doc_bad_entry_refused. apply Exists_exists. exists (id, b). split; [exact Hin|].
-    cbn [fst snd]. eapply from_bytes_short_refused; eassumption. }
+    cbn [fst snd]. eapply from_bytes_wrong_width_refused; eassumption. }
   split; [exact H|]. apply unmarshal_error_keeps. cbn [parse_doc]. rewrite H. reflexivity.
 Qed.
 
@@ -1326,17 +1330,17 @@ Proof.
   intro a. apply yaml_entry_never_panics.
 Qed.
 
-(** the obsolete "base64:" value: text that is no base64, or base64 of fewer bytes than the
-    register's width (none at all: "base64:") is refused *)
-Lemma b64_entry_short_refused id t :
+(** the obsolete "base64:" value: text that is no base64, or base64 of another number of bytes
+    than the register's width (none at all: "base64:") is refused *)
+Lemma b64_entry_wrong_width_refused id t :
   (b64_dec t = None \/
-   exists b i, b64_dec t = Some b /\ lookup id registry = Some i /\ (List.length b < r_parser i)%nat) ->
+   exists b i, b64_dec t = Some b /\ lookup id registry = Some i /\ List.length b <> r_parser i) ->
   yaml_entry id (YStr (pfx_b64 ++ t)) = RErr.
 Proof.
   intro H. unfold yaml_entry. cbn [value_unpack]. unfold value_unpack_string.
   rewrite drop_hex_b64, drop_b64_b64. unfold value_from_base64.
   destruct H as [H|[b [i [H [Hl Hlen]]]]]; rewrite H; [reflexivity|].
-  rewrite (from_bytes_short_refused id i b Hl Hlen). reflexivity.
+  rewrite (from_bytes_wrong_width_refused id i b Hl Hlen). reflexivity.
 Qed.
 
 Lemma b64_entry_empty_refused id : yaml_entry id (YStr pfx_b64) = RErr.
@@ -1375,10 +1379,13 @@ Lemma ex_widths :
   value_from_bytes "TXT.ERRORCODE" [] = RErr /\
   value_from_bytes "TXT.ERRORCODE" [1; 0; 0] = RErr /\
   value_from_bytes "TXT.ERRORCODE" [1; 0; 0; 0xc0] = ROk ("TXT.ERRORCODE", 0xc0000001) /\
-  value_from_bytes "TXT.ERRORCODE" [1; 0; 0; 0xc0; 7] = ROk ("TXT.ERRORCODE", 0xc0000001) /\
+  value_from_bytes "TXT.ERRORCODE" [1; 0; 0; 0xc0; 7] = RErr /\
+  value_from_bytes_legacy "TXT.ERRORCODE" [1; 0; 0; 0xc0; 7] = ROk ("TXT.ERRORCODE", 0xc0000001) /\
   value_from_bytes key_id (repeat 1 31) = RErr /\ value_from_bytes key_id (repeat 1 33) = RErr /\
   json_doc [("ACM_POLICY_STATUS", [0x42; 0; 0; 0; 0; 0; 0; 0]); ("TXT.ERRORCODE", [])] = RErr /\
+  json_doc [("TXT.ESTS", [1; 255])] = RErr /\
   yaml_entry "TXT.ESTS" (YStr "base64:") = RErr /\ yaml_entry "TXT.ESTS" (YStr "0x") = RErr /\
+  yaml_entry "TXT.ESTS" (YStr "base64:Af8=") = RErr /\
   yaml_entry "ACM_STATUS" (YStr "base64:EHCFTw==") = RErr.
 Proof. vm_compute. repeat split. Qed.
 Close Scope string_scope.
